@@ -86,7 +86,7 @@ def run_out(ctx, R, F):
         t = b.blocks[x]['term']
         if t['k'] == 'switch' and not b.blocks[x]['cleanup']:
             d = describe(b, t['op'], depth=3, at=x)
-            if d in ('Eq(num_channels, 1)', 'Ne(num_channels, 1)', 'Eq(_3, 1)', 'Ne(_3, 1)'):
+            if d in ('Eq(1, num_channels)', 'Ne(1, num_channels)', 'Eq(1, _3)', 'Ne(1, _3)'):
                 sw = (x, d, t)
     if not R.check(sw is not None, 'B.C01.cover', 'anchor', 'the num_channels == 1 branch was not found'):
         return
